@@ -1,6 +1,7 @@
 CONSTANTS
   Ents = {"r", "s", "l"}
   Parent <- StarParent
+  AltParents <- StarAlt
   Contents = {0, 1, 2}
   FlagSets <- AnyFlagSets
   EnvActs <- AllEnv
